@@ -183,7 +183,13 @@ func (m *gmachine) exec(ev map[string]any) {
 	case "GetNodesByIdentifier":
 		ev["val"] = proj.Nodes(a.GetNodesByIdentifier(str(ev, "t"), str(ev, "v")))
 	case "GetRootNodes":
-		ev["val"] = proj.Nodes(a.GetRootNodes())
+		// alternately through the list and through a document holding it (the same answer is required)
+		if integer(ev, "sid")%2 == 0 {
+			ev["val"] = proj.Nodes(a.GetRootNodes())
+		} else {
+			ev["val"] = proj.Nodes((&sbom.Document{NodeList: a}).GetRootNodes())
+			ev["via"] = "document"
+		}
 	case "Match":
 		p := proj.ToNode(obj(ev, "p"))
 		n, err := a.GetMatchingNode(p)
